@@ -34,6 +34,36 @@ type scriptSpec struct {
 	// Long: this many OP_NOP bytes stand in front of the script - a script longer than what an interpreter would
 	// run (10000 bytes) is still a script in a block, and its pushes are still its pushes
 	Long int `json:"long,omitempty"`
+	// Token (outputs only): 1 the output also carries a fungible CashToken amount, 2 an NFT with a commitment, 3 both.
+	// Token data travels next to the script, not in it: which transactions are relevant does not depend on it.
+	Token int `json:"token,omitempty"`
+}
+
+func c10TokenData(kind, salt int) wire.TokenData {
+	if kind <= 0 || kind > 3 {
+		return wire.TokenData{}
+	}
+	var cat [32]byte
+	for i := range cat {
+		cat[i] = byte(salt*7 + i*3 + 1)
+	}
+	var amt *uint64
+	var com *[]byte
+	var capab *byte
+	if kind == 1 || kind == 3 {
+		a := uint64(1 + salt)
+		amt = &a
+	}
+	if kind >= 2 {
+		c := bytes.Repeat([]byte{byte(0x40 + salt)}, 1+salt%8)
+		com = &c
+		cb := byte(salt % 3)
+		capab = &cb
+	}
+	if p, err := wire.NewTokenData(cat, amt, com, capab); err == nil {
+		return *p
+	}
+	return wire.TokenData{}
 }
 
 // parsePushes reads a script the way Bitcoin scripts are tokenised: 0x01..0x4b push that many bytes, 0x4c /
@@ -290,7 +320,7 @@ func buildTxs(c c10Case) ([]*builtTx, error) {
 			if parsable != (err == nil) || (parsable && !pushesEqual(got, pushes)) {
 				return nil, hbug("grammar and txscript.PushedData disagree on output script %x: %v / %x vs %x", script, err, got, pushes)
 			}
-			b.msg.AddTxOut(wire.NewTxOut(int64(1000+oi), script, wire.TokenData{}))
+			b.msg.AddTxOut(wire.NewTxOut(int64(1000+oi), script, c10TokenData(os.Token, oi)))
 			b.outPsh = append(b.outPsh, pushes)
 			b.outCls = append(b.outCls, txscript.GetScriptClass(script))
 		}
@@ -683,6 +713,9 @@ func genScriptSpec(t *rapid.T, npool int, forInput bool) scriptSpec {
 		s.Mut, s.MutPos = true, rapid.IntRange(-4, 70).Draw(t, "mutpos")
 		s.MutVal = rapid.SampledFrom([]byte{0x00, 0x01, 0x14, 0x15, 0x21, 0x41, 0x4c, 0x4d, 0x4e, 0x51, 0x52, 0x87, 0x88, 0xac, 0xae, 0xa9, 0x76, 0x6a, 0xff}).Draw(t, "mutval")
 	}
+	if !forInput && rapid.IntRange(0, 7).Draw(t, "token") == 0 {
+		s.Token = rapid.IntRange(1, 3).Draw(t, "tokenkind")
+	}
 	if rapid.IntRange(0, 39).Draw(t, "long") == 0 {
 		s.Long = rapid.SampledFrom([]int{1, 200, 9900, 9999, 10000, 10001, 20000, 65536}).Draw(t, "longn")
 	}
@@ -812,6 +845,57 @@ func genC10(t *rapid.T) c10Case {
 		c.PermTag = "random"
 		c.Perm = rapid.Permutation(seqInts(len(c.Txs))).Draw(t, "perm")
 		if rapid.IntRange(0, 2).Draw(t, "rev") == 0 { // children strictly before their parents: the longest cascades
+			c.PermTag = "reverse-topological"
+			for i := range c.Perm {
+				c.Perm[i] = len(c.Txs) - 1 - i
+			}
+		}
+		return c
+	}
+	if rapid.IntRange(0, 5).Draw(t, "webmode") == 0 {
+		// directed: a small web instead of a chain.  The first transaction pays a watched item on several outputs;
+		// every later one spends one to three outputs of earlier ones (any of them) and its outputs pay the watched
+		// item, carry the serialisation of an outpoint it spends, or nothing.  A transaction can thus match a second
+		// time for a new reason (an output that starts to match once the outpoint it names has been inserted) after
+		// its dependants were already looked at.  Orders: random and children-first.
+		c.Flags = byte(rapid.SampledFrom([]int{1, 1, 1, 2}).Draw(t, "webflags"))
+		c.Len, c.K = 2000, 10
+		c.Txs = nil
+		watched := scriptSpec{Cls: "pushes", Items: []int{5 % len(c.Pool)}, Enc: []int{0}}
+		if c.Flags == 2 {
+			watched = scriptSpec{Cls: "p2pk", Items: []int{0}}
+		}
+		first := c10Tx{Ins: []c10In{{Src: -1, Out: 0, Script: scriptSpec{Cls: "empty"}}}}
+		for k := rapid.IntRange(1, 3).Draw(t, "webq"); k > 0; k-- {
+			first.Outs = append(first.Outs, watched)
+		}
+		c.Txs = append(c.Txs, first)
+		nweb := rapid.IntRange(2, 6).Draw(t, "nweb")
+		for ti := 1; ti <= nweb; ti++ {
+			tx := c10Tx{LockTime: uint32(ti)}
+			for k := rapid.IntRange(1, 3).Draw(t, "webin"); k > 0; k-- {
+				src := rapid.IntRange(0, ti-1).Draw(t, "websrc")
+				tx.Ins = append(tx.Ins, c10In{Src: src, Out: uint32(rapid.IntRange(0, 2).Draw(t, "webout")), Script: scriptSpec{Cls: "empty"}})
+			}
+			for k := rapid.IntRange(1, 3).Draw(t, "webouts"); k > 0; k-- {
+				switch rapid.IntRange(0, 3).Draw(t, "webocls") {
+				case 0:
+					tx.Outs = append(tx.Outs, watched)
+				case 1, 2:
+					tx.Outs = append(tx.Outs, scriptSpec{Cls: "pushes", Items: []int{selfItemBase + rapid.IntRange(0, 2).Draw(t, "webself")}, Enc: []int{0}})
+				default:
+					tx.Outs = append(tx.Outs, scriptSpec{Cls: "empty"})
+				}
+			}
+			c.Txs = append(c.Txs, tx)
+		}
+		c.Preload = []c10Preload{{Kind: "item", A: 5 % len(c.Pool)}}
+		if c.Flags == 2 {
+			c.Preload = []c10Preload{{Kind: "item", A: 0}}
+		}
+		c.PermTag = "random"
+		c.Perm = rapid.Permutation(seqInts(len(c.Txs))).Draw(t, "webperm")
+		if rapid.Bool().Draw(t, "webrev") {
 			c.PermTag = "reverse-topological"
 			for i := range c.Perm {
 				c.Perm[i] = len(c.Txs) - 1 - i
